@@ -3,7 +3,7 @@
 # reordered, re-partitioned into files (several documents per file / one per file), and with the semantically unordered
 # lists inside NetworkPolicies permuted (rules, peers, ports, policyTypes).  All outputs of one
 # world and format must be byte-identical.  list: txt json csv md dot (+ exposure on/off), diff: txt csv md dot.
-import copy
+import copy, re
 from . import c04, c10
 from .lib import core, gen, listcorr
 
@@ -53,13 +53,71 @@ def bias_world(r, W, anp):
         proto = r.choice(['TCP', 'UDP'])
         W['netpols'].append({'ns': w['ns'], 'name': 'named3', 'podSelector': {}, 'policyTypes': ['Ingress' if d == 'ingress' else 'Egress'],
                              d: [{key: [peer], 'ports': [{'protocol': proto, 'port': nm} for nm in names]}]})
+    if not anp and r.random() < 0.12 and W['workloads']:
+        # one selector spelled in two ways by two policies (they share a representative peer)
+        w = r.choice(W['workloads'])
+        nsx = r.choice(['nsq', w['ns']])
+        for i, sel in enumerate([{'matchExpressions': [{'key': gen.NSKEY, 'operator': 'In', 'values': [nsx]}]}, {'matchLabels': {gen.NSKEY: nsx}}]):
+            W['netpols'].append({'ns': w['ns'], 'name': 'spell%d' % i, 'podSelector': {}, 'policyTypes': ['Egress'],
+                                 'egress': [{'to': [{'namespaceSelector': sel}], 'ports': [{'port': 1 + i}]}]})
     if r.random() < 0.5 and W['workloads']:
         # Services, Ingresses and Routes: the analyzer fills three maps from them, in document order
         for w in W['workloads']:
             if not w['ports']:
                 w['ports'].append({'port': r.choice(gen.PORTS), 'proto': 'TCP', 'name': ''})
-        W['others'] = (W.get('others') or []) + [c10.manifest(o) for o in c10.gen_ingress_objs(r, W)]
+        W['others'] = dedupe_named((W.get('others') or []) + [c10.manifest(o) for o in c10.gen_ingress_objs(r, W)])
     return W
+
+
+FID_SPELLING = 'c08-representative-spelling-order'
+IN1 = re.compile(r'\{Key:([^,{}]*),Operator:In,Values:\[([^ \]{}]*)\],\}')
+WITH = re.compile(r'(namespace|pod) with \{((?:[^{}]|\{[^{}]*\})*)\}')
+
+
+def _split_top(s):
+    items, depth, cur = [], 0, ''
+    for ch in s:
+        if ch == '{':
+            depth += 1
+        elif ch == '}':
+            depth -= 1
+        if ch == ',' and depth == 0:
+            items.append(cur)
+            cur = ''
+        else:
+            cur += ch
+    if cur:
+        items.append(cur)
+    return items
+
+
+def norm_rep_spelling(text):
+    """identify the spellings of one selector that share a representative peer: `k In [v]` = `k=v`, and a namespace named by its name label"""
+    text = IN1.sub(lambda m: '%s=%s' % (m.group(1), m.group(2)), text)
+    text = WITH.sub(lambda m: '%s with {%s}' % (m.group(1), ','.join(sorted(_split_top(m.group(2))))), text)
+    text = re.sub(r'\[namespace with \{kubernetes\.io/metadata\.name=([^,{}]*)\}\]', lambda m: m.group(1), text)
+    text = re.sub(r'namespace with \{kubernetes\.io/metadata\.name=([^,{}]*)\}', lambda m: m.group(1), text)
+    return sorted(l.rstrip() for l in re.sub(r'[ \t]+', ' ', text).split('\n'))
+
+
+FID_FULLNAMED = 'c08-full-range-with-named-port-order'
+FULLNAMED = re.compile(r'SCTP 1-65535(,[A-Za-z][A-Za-z0-9-]*)*,TCP 1-65535(,[A-Za-z][A-Za-z0-9-]*)*,UDP 1-65535(,[A-Za-z][A-Za-z0-9-]*)*')
+
+
+def norm_full_named(text):
+    """all port numbers of all three protocols, with or without (redundant) named ports, is the set 'All Connections'"""
+    return FULLNAMED.sub('All Connections', text)
+
+
+def dedupe_named(objs):
+    """a resource set has one object per (kind, namespace, name)"""
+    seen, res = set(), []
+    for o in objs:
+        k = (o['kind'], o['metadata'].get('namespace'), o['metadata']['name'])
+        if k not in seen:
+            seen.add(k)
+            res.append(o)
+    return res
 
 
 def variant(r, W, how):
@@ -151,7 +209,13 @@ def main(tier):
                     run.dist('%s:%s' % (key[0], key[1]))
                 if bad:
                     key, how, o0, oj = bad
-                    run.report(None, 'order-%d' % cid, {'kind': 'determinism', 'command': key[0], 'format': key[1], 'exposure': key[2], 'variation': how,
+                    fid = None
+                    if key[0] == 'list' and key[2] and o0['outcome'] == 'ok' and oj['outcome'] == 'ok':
+                        if norm_rep_spelling(o0.get('out', '')) == norm_rep_spelling(oj.get('out', '')):
+                            fid = FID_SPELLING
+                        elif norm_rep_spelling(norm_full_named(o0.get('out', ''))) == norm_rep_spelling(norm_full_named(oj.get('out', ''))):
+                            fid = FID_FULLNAMED
+                    run.report(fid, 'order-%d' % cid, {'kind': 'determinism', 'command': key[0], 'format': key[1], 'exposure': key[2], 'variation': how,
                                                        'world': W, 'world2': W2 if key[0] == 'diff' else None,
                                                        'first': {'outcome': o0['outcome'], 'err': o0.get('err'), 'out': o0.get('out')},
                                                        'other': {'outcome': oj['outcome'], 'err': oj.get('err'), 'out': oj.get('out')},
